@@ -22,13 +22,14 @@ func TestC14(t *testing.T) {
 	rapid.Check(t, func(t *rapid.T) {
 		col.Case()
 		top := newMemModel()
+		win := memWindows[rapid.IntRange(0, len(memWindows)-1).Draw(t, "window")]
 		c := &memChecker{
 			mem:   memory.NewSparse(),
 			view:  memView{layers: []*memModel{top}},
 			top:   top,
-			win:   memWindows[rapid.IntRange(0, len(memWindows)-1).Draw(t, "window")],
+			win:   win,
 			seeds: []uint64{drawEnvSeed(t, "env1"), drawEnvSeed(t, "env2")},
-			maxW:  32,
+			maxW:  memMaxWidth(win, 32),
 		}
 		t.Repeat(map[string]func(*rapid.T){
 			"store":   c.store,
